@@ -288,6 +288,9 @@ def _build_section(spec, page, dtag="D", htag="H") -> Built:
         hdrs = [rtf.RTFColumnHeader(text=[f"{htag}0.{j}" for j in range(len(shown))], **hattrs)]
     elif hm == "explicit_all":  # one text per ORIGINAL column
         hdrs = [rtf.RTFColumnHeader(text=[f"{htag}0.{j}" for j in range(len(order))], **hattrs)]
+    elif hm in ("explicit_long", "explicit_short"):  # one text more / fewer than displayed columns
+        k = len(shown) + (1 if hm == "explicit_long" else -1)
+        hdrs = [rtf.RTFColumnHeader(text=[f"{htag}0.{j}" for j in range(max(k, 1))], **hattrs)]
     elif hm == "two":
         k = len(shown)
         span = [max(1, k // 2), max(1, k - k // 2)] if k > 1 else [1]
